@@ -208,6 +208,32 @@ def run_paragraph(case, ctx):
         c = p.clone
         ctx.check(p.serialize() == before and c.serialize() == before and type(c) is type(p), ("C10", "Element.clone", "not-equal-at-birth"),
                   f"{before} vs {c.serialize()}", case)
+        # clones of nodes in the middle of the tree: same class, same XML, same tail (what follows the element inside its
+        # parent: a blank between two spans is text), a root of their own
+        from odfdo import Element
+
+        host = Element.from_tag("text:section")
+        host.append(p.clone)
+        hp = host.children[0]
+        hp.tail = "\n  "
+        mids = [hp] + [k for k in hp.children][:6]
+        blanks = [" ", "\n", "\t", "   ", None, "x y"]
+        for i, k in enumerate(mids[1:]):
+            if not k.tail:
+                k.tail = blanks[(i + len(before)) % len(blanks)]
+        host_before = host.serialize()
+        for k in mids:
+            kc = k.clone
+            ctx.check(type(kc) is type(k) and kc.serialize() == k.serialize(), ("C10", "Element.clone", "not-equal-at-birth"),
+                      f"clone of a mid-tree <{k.tag}>: {kc.serialize()!r} vs {k.serialize()!r}", case)
+            ctx.check((kc.tail or "") == (k.tail or "") and kc.text_recursive == k.text_recursive, ("C10", "Element.clone", "tail-not-equal-at-birth"),
+                      f"clone of a mid-tree <{k.tag}>: tail {kc.tail!r} vs {k.tail!r}, text_recursive {kc.text_recursive!r} vs {k.text_recursive!r}", case)
+            ctx.check(kc.parent is None or kc.parent.tag != k.parent.tag or kc.parent.serialize() != k.parent.serialize(), ("C10", "Element.clone", "shares-parent"),
+                      "the clone sits in the original's parent", case)
+            kc.tail = "CLONE-TAIL"
+            kc.set_attribute("text:style-name", "clone-only")
+        ctx.check(host.serialize() == host_before, ("C10", "Element", "operation-visible-on-twin", "mid-tree"),
+                  "editing clones of mid-tree nodes changed the original tree", case)
         twins = {"o": p, "c": c}
         snaps = {"o": before, "c": before}
         for n, (side, e) in enumerate(case["edits"]):
